@@ -141,7 +141,9 @@ def run(chk):
                 'LineCol.tla enumerates all strings over {letter, LF} up to length N with the expected (line, column) of every '
                 'offset, replayed in ascending and descending lookup order; corpus documents are validated by TLC (DocsTrace). '
                 'A case is a document or a string.')
-    for label, pools in [('docs', {'Budget': 3 if quick else 4}),
+    bare = 'Cmd(%s, << Cmd(%s, <<>>), Grp("{", << T(%s) >>, <<>>) >>)' % (tlc.tla_seq('def'), tlc.tla_seq('nm'), tlc.tla_seq('v'))
+    bare2 = 'Cmd(%s, << Cmd(%s, <<>>) >>)' % (tlc.tla_seq('textbf'), tlc.tla_seq('nm'))
+    for label, pools in [('docs', {'Budget': 3 if quick else 4, 'Leaves': D.BASE['Leaves'] + [bare, bare2]}),
                          ('lines', {'Budget': 4, 'TextPool': ['a', '\n', 'b c\nx', ' ', 'aa a'], 'ComPool': ['a'], 'MathKinds': ['$'],
                                     'MEnvNames': [], 'VerbNames': ['verbatim'], 'VerbBodies': ['a\nxx a'], 'Leaves': [], 'ListNames': [], 'MaxSib': 3})]:
         recs, p = D.generate(chk, label, pools, [i for i in INV if i != 'C19_TokPosG'])
